@@ -296,6 +296,7 @@ class C17Property:
                             skipped[key] = skipped.get(key, 0) + 1
                         break
 
+        self._cases_generated = cases  # (kept for post-mortem inspection of a run)
         out = common.lean_run(corr.MODEL_FILE, "\n".join(lines) + "\n", timeout=1500)
         outs = out.split("\n")
         pos = 0
